@@ -149,3 +149,10 @@ func runIsolated(id string, caseObj interface{}, a *args, idx int) (st *stats, c
 	}
 	return &s, false, ""
 }
+
+func b(v bool) string {
+	if v {
+		return "true"
+	}
+	return "false"
+}
